@@ -651,6 +651,7 @@ pub assume_specification<T: PartialEq>[ <[T]>::contains ](s: &[T], x: &T) -> (r:
         RawFile('elim_gen.rs'),
         RawFile('elim_nfa.rs'),
         RawFile('elim_mp.rs'),
+        RawFile(os.path.join(HERE, '..', 'common', 'clsf.rs'), 'clsf.rs'),
         RawFile('elim_lang.rs'),
         C(sub.epsilon_closure), C(sub.get_match_transitions),
         C(sub.mp_epsilon_closure), C(sub.mp_get_match_transitions), C(sub.mp_find_nfa), C(sub.mp_is_accepting),
